@@ -55,10 +55,16 @@ theorem uStep_eval {o : St N} {i j a : Fin N} {fuel : Nat} {queue : List (Fin N)
   rw [h1]
   cases (specStep U (a, (o.get j).rem)).2 <;> simp
 
+/-- why an insert was rejected: a set `U1` of `N` pairs, all from `U` or from `o`, and one more
+pair of `o` outside it -/
+def FullWit (o : St N) (z : Fin N) (qt : Nat → Nat) (U : Finset (Fin N × Nat)) : Prop :=
+  ∃ (U1 : Finset (Fin N × Nat)) (x : Fin N × Nat),
+    (∀ y, y ∈ U1 → y ∈ U ∨ Abs o z qt y.1 y.2) ∧ U1.card = N ∧ x ∉ U1 ∧ Abs o z qt x.1 x.2
+
 /-- what the walk over one cluster returns -/
 def ClusterPost (o : St N) (z : Fin N) (qt : Nat → Nat) (k : Nat) (U : Finset (Fin N × Nat))
     (t' : St N) (res : Res) : Prop :=
-  res = .full ∨ (res = .ok true ∧ ∃ len U', k ≤ len ∧ len ≤ N ∧
+  (res = .full ∧ FullWit o z qt U) ∨ (res = .ok true ∧ ∃ len U', k ≤ len ∧ len ≤ N ∧
     (∀ m, 0 < m → m < len → (o.at z m).shift = true) ∧
     (len < N → (o.at z len).shift = false) ∧ Rep t' U' ∧
     ∀ x, x ∈ U' ↔ (x ∈ U ∨ ∃ m, k ≤ m ∧ m < len ∧ x = pairAt o z qt m))
@@ -120,7 +126,9 @@ theorem unionCluster_spec {o : St N} {z : Fin N} {qt : Nat → Nat} (ho : LInv o
           rw [he]
           by_cases hfull : (specStep U (pos z (qt (j + 1)), (o.get (pos z (j + 1))).rem)).2 = .full
           · rw [if_pos hfull]
-            exact ⟨t1, .full, rfl, Or.inl rfl⟩
+            have hf := (specStep_full_iff _ _).mp hfull
+            exact ⟨t1, .full, rfl, Or.inl ⟨rfl, U, _, fun y hy => Or.inl hy, hf.2, hf.1,
+              ⟨j + 1, hlt, hu, rfl, rfl⟩⟩⟩
           · rw [if_neg hfull, incr_pos]
             obtain ⟨t', res, h1, h2⟩ := ih (j + 1) l2 t1 _ (by omega) (by omega)
               (by
@@ -130,8 +138,13 @@ theorem unionCluster_spec {o : St N} {z : Fin N} {qt : Nat → Nat} (ho : LInv o
                 · exact hsh m hm1 (by omega))
               hQ2 hr1
             refine ⟨t', res, h1, ?_⟩
-            rcases h2 with h2 | ⟨h2, len, U', c1, c2, c3, c4, c5, c6⟩
-            · exact Or.inl h2
+            rcases h2 with ⟨h2, W, x, w1, w2, w3, w4⟩ | ⟨h2, len, U', c1, c2, c3, c4, c5, c6⟩
+            · refine Or.inl ⟨h2, W, x, fun y hy => ?_, w2, w3, w4⟩
+              rcases w1 y hy with hy | hy
+              · rcases (specStep_mem_notfull _ _ _ hfull).mp hy with hy | rfl
+                · exact Or.inl hy
+                · exact Or.inr ⟨j + 1, hlt, hu, rfl, rfl⟩
+              · exact Or.inr hy
             · refine Or.inr ⟨h2, len, U', by omega, c2, c3, c4, c5, ?_⟩
               intro x
               rw [c6, specStep_mem_notfull _ _ _ hfull]
